@@ -71,11 +71,12 @@ type c10Sub struct {
 }
 
 type c10Main struct {
-	subs      map[string]*c10Sub
-	tableInit map[string]string
-	tableKeys []string
-	ufArms    []c10UfArm
-	src       string
+	subs       map[string]*c10Sub
+	tableInit  map[string]string
+	tableKeys  []string
+	ufArms     []c10UfArm
+	src        string
+	bareBlocks int
 }
 
 type c10UfArm struct {
@@ -292,6 +293,22 @@ func (g *c10g) genMain() {
 		for i := 1; i <= nf; i++ {
 			f := g.genFeat(s, fmt.Sprintf("%s%d", sc.tag, i))
 			s.feats = append(s.feats, f)
+			// a bare nested block does not change what its statements do
+			bare := g.chance(1, 5, "bare-block")
+			for _, l := range f.lines {
+				if strings.Contains(l, "declare local") {
+					bare = false
+				}
+			}
+			if bare {
+				add("  {")
+				for _, l := range f.lines {
+					add("    " + l)
+				}
+				add("  }")
+				m.bareBlocks++
+				continue
+			}
 			for _, l := range f.lines {
 				add("  " + l)
 			}
